@@ -121,14 +121,15 @@ Theorem C09_render_model :
 Proof. exact render_spec. Qed.
 Print Assumptions C09_render_model.
 
-(* the property, on its domain (negation of the two recorded classes): every format in the term is
-   well-formed UTF-8 without a leading U+FEFF, and every plain %v argument has a value literal.
+(* the property, on its domain: every format in the term is well-formed UTF-8 ([fmts_utf8], what the
+   correspondence check tests before it evaluates the predicate), and the term is in neither of the
+   two recorded classes: no format starts with U+FEFF, every plain %v argument has a value literal.
    [spec_render same OutOfFuel] is the predicate the correspondence check evaluates on the
    implementation's output. *)
 Theorem C09_render :
-  forall s, fmts_ok s = true -> cls_nolit s = false ->
+  forall s, fmts_utf8 s = true -> cls_bom s = false -> cls_nolit s = false ->
             render all_fixed s = spec_render same OutOfFuel s.
-Proof. exact render_dom. Qed.
+Proof. exact render_dom_classes. Qed.
 Print Assumptions C09_render.
 
 (* the model has no fuel: it always answers Ok or Panic *)
@@ -141,6 +142,11 @@ Theorem C09_scanner_transparent :
   forall f, utf8 f -> has_bom f = false -> sc_view f = f.
 Proof. exact scanner_transparent. Qed.
 Print Assumptions C09_scanner_transparent.
+
+(* [utf8b] (used in [fmts_utf8]) decides well-formedness as the Unicode standard states it (table 3-7) *)
+Theorem C09_utf8_decided : forall s, utf8b s = true <-> utf8 s.
+Proof. exact utf8b_iff. Qed.
+Print Assumptions C09_utf8_decided.
 
 (* ---- the code before the repairs (fixes/C09-*.diff), kept checkable ---- *)
 
